@@ -23,6 +23,7 @@ Definition probe_sweep_publishes := false.
 Definition gate_before_resolve := false.
 Definition two_element_list_is_range := true.
 Definition combinatorial_sorts_names := false.
+Definition none_value_is_noop := true.
 Definition reserved_names : list string := [].
 Definition translation_failed := true.
 """
@@ -103,6 +104,20 @@ def translate():
     comb_sorted = "var_names = sorted(sequences.keys())" in it and "itertools.product(*var_seqs)" in it
     if "if mode == 'by_position':" not in it:
         raise TranslationError("_iterate_sweep: mode test not found")
+    ftree, p5 = parse("semantiva/context_processors/factory.py")
+    rn = ast.unparse(find_def(find_def(ftree, "_context_renamer_factory", ast.FunctionDef), "_process_logic", ast.FunctionDef))
+    dl = ast.unparse(find_def(find_def(ftree, "_context_deleter_factory", ast.FunctionDef), "_process_logic", ast.FunctionDef))
+    if "if value is not None:" in rn and "if value is not None:" in dl:
+        none_noop = True
+    elif "if original_key in kwargs:" in rn and "if key in kwargs:" in dl:
+        none_noop = False
+    else:
+        raise TranslationError("rename/delete factories: unknown presence test")
+    for frag in ("self._notify_context_update(destination_key, value)", "self._notify_context_deletion(original_key)"):
+        if frag not in rn:
+            raise TranslationError("rename factory: missing " + frag)
+    if "self._notify_context_deletion(key)" not in dl:
+        raise TranslationError("delete factory: missing deletion")
     text = """(* GENERATED from semantiva/pipeline/_param_resolution.py and pipeline/nodes/nodes.py — do not edit *)
 From Coq Require Import List String Bool. Import ListNotations.
 Open Scope string_scope.
@@ -114,7 +129,8 @@ Definition probe_sweep_publishes : bool := %s.
 Definition gate_before_resolve : bool := %s.
 Definition two_element_list_is_range : bool := %s.
 Definition combinatorial_sorts_names : bool := %s.
+Definition none_value_is_noop : bool := %s.
 Definition translation_failed := false.
 """ % (cq_list(order), cq_list(iorder), cq_list(reserved, cq_str), cq_bool(publishes), cq_bool(gate_first),
-       cq_bool(two_is_range), cq_bool(comb_sorted))
-    return text, [p1, p2, p3, p4]
+       cq_bool(two_is_range), cq_bool(comb_sorted), cq_bool(none_noop))
+    return text, [p1, p2, p3, p4, p5]
